@@ -213,9 +213,6 @@ def grid_row(case, ctx):
     sa = specs[case["i"]]
     with contextlib.redirect_stdout(io.StringIO()):
         A = lsops.build_approx(sa, grid)
-    if np.asarray(A.values).dtype.kind not in "fiu":
-        ctx.count("grid_operand_without_values")
-        return
     va = np.asarray(A.values, dtype=float).copy()
     sA = snap(A)
     ex = {"grid": grid, "A": sa}
@@ -253,8 +250,6 @@ def grid_row(case, ctx):
     for sb in partners:
         with contextlib.redirect_stdout(io.StringIO()):
             B = lsops.build_approx(sb, grid)
-        if np.asarray(B.values).dtype.kind not in "fiu":
-            continue
         vb = np.asarray(B.values, dtype=float).copy()
         sB = snap(B)
         ctx.state(("grid", grid, sa, sb))
@@ -290,7 +285,6 @@ def snap_checks(ctx):
                 srcs.append(PersLandscapeApprox(dgms=[np.array(d)], hom_deg=0, start=s, stop=e, num_steps=n))
         hand = [PersLandscapeApprox(values=np.array(v, dtype=float), hom_deg=0, start=0.0, stop=3.0, num_steps=4)
                 for v in ([[0, 1, 2, 0]], [[0, -1, 1, 0], [0, 2, 0, 0]], [[0, 2, 2, 0]])]
-    srcs = [s for s in srcs if np.asarray(s.values).dtype.kind == "f"]
     pool = srcs + hand
     import itertools
 
